@@ -19,7 +19,7 @@ CLAUSES = {
     "C03": ["C03_first", "C03_notearly", "C03_notdead", "C03_prompt", "C03_kids", "C03_stopsig"],
     "C04": ["C04_list", "C04_count", "C04_owned", "C04_status"],
     "C05": ["C05_noblock", "C05_readnow", "C05_bound"],
-    "C09": ["C09_spawn", "C09_reap", "C09_live", "C09_startstop", "C09_status"],
+    "C09": ["C09_spawn", "C09_reap", "C09_live", "C09_killev", "C09_startstop", "C09_status"],
     "C10": ["C10_wedge", "C10_refuse", "C10_accept", "C10_held"],
     "C13": ["C13_wid"],
     "C14": ["C14_startgate", "C14_siggate", "C14_events", "C14_killsent", "C14_own"],
